@@ -307,6 +307,7 @@ def run(ctx: Ctx) -> int:
             inputs.append(("target-line", f"from Reduino import target\ntarget({q}{longport}{q}){tail}\nfrom Reduino.Actuators import Led\nled = Led(13)\n", None))
             inputs.append(("target-line", f"from Reduino import target\ntarget({q}{longport}{q}{tail}\nled = 1\n", None))
             inputs.append(("target-line", f"from Reduino import target\nport = target({q}{longport} {longport}{q}){tail}\n", None))
+    inputs.append(("python", scripts_pool.HEADER + "mon = SerialMonitor(9600)\nc = 1\nif c > 0:\n    al\u00e9 = 1\nmon.write(c)\n", None))
     for v in VALID_PYTHON:
         inputs.append(("python", scripts_pool.HEADER + v, None))
     for p in sorted((common.SRC / "Reduino").rglob("*.py"))[:12]:
@@ -370,7 +371,8 @@ def run(ctx: Ctx) -> int:
             except (SyntaxError, ValueError):
                 is_python = False
             if is_python:
-                ctx.fail("clean-failure:SyntaxError-for-valid-python", "SyntaxError raised for text that IS Python", replay)
+                nonascii = any(ord(ch) > 127 for ch in src)
+                ctx.fail("clean-failure:SyntaxError-for-valid-python" + (":non-ascii-source" if nonascii else ""), "SyntaxError raised for text that IS Python", replay)
         elif o == "returns" and kind in ("noise", "mutated", "python"):
             try:
                 ast.parse(src)
